@@ -49,6 +49,25 @@ func propHolds(kind string, lits [][]byte, m []byte) bool {
 	return false
 }
 
+// limitProbePatterns: alternations INSIDE a concatenation whose branch count crosses the small limits (MaxLiterals 1, 2, 8) and in
+// which a short branch is a prefix (or a suffix) of a longer one (shared by C17 and C12).
+func limitProbePatterns() []string {
+	var fixed []string
+	for _, k := range []int{2, 3, 4, 9, 10} {
+		var alts []string
+		for j := 0; j < k; j++ {
+			w := fmt.Sprintf("g%c%c", 'a'+j%5, 'm'+j%3)
+			if j%2 == 1 {
+				w = alts[j-1] + "all" // the previous short branch is a prefix of this one
+			}
+			alts = append(alts, w)
+		}
+		a := strings.Join(alts, "|")
+		fixed = append(fixed, "(?:"+a+") /", "(?:"+a+")[0-9]+x", "x(?:"+a+")", `\b(?:`+a+"): ", "(?:"+a+")(?:"+a+")")
+	}
+	return append(fixed, `(?:get|put|getall) /`, `(?:err|warn|error): `, `(?:GET|POST|GETX) (/[a-z]+)`, `[a-z]+(?:ing|ang|ring)`, `.*(?:a\.txt|\.dat|b\.txt)`)
+}
+
 // c17BaseKind maps a case kind to the guarantee the verified checker decides for it.
 func c17BaseKind(kind string) string {
 	switch kind {
@@ -109,6 +128,12 @@ func checkC17(r *Report, known []Finding) {
 		}
 	}
 	fixed = append(fixed, `(?i)sky`, `(?i)kelvin scale`, `(?i:ask)[0-9]+`, `.*(?i:desk)`, `(?i)straße|maße`)
+	// alternations INSIDE a concatenation whose branch count crosses the small limits (MaxLiterals 1, 2, 8) and in which a short
+	// branch is a prefix (or a suffix) of a longer one: trimming to the first bytes and de-duplicating must not leave an "exact"
+	// literal that stands for the longer branch too. These always run under every extractor configuration.
+	allCfgFrom := len(fixed)
+	fixed = append(fixed, limitProbePatterns()...)
+	allCfgTo := len(fixed)
 	tcomp := r.Tie("complete literals are themselves matches (regexp)")
 	deadline := time.Now().Add(8 * time.Minute)
 	for i := 0; i < np && time.Now().Before(deadline); i++ {
@@ -135,7 +160,7 @@ func checkC17(r *Report, known []Finding) {
 		dump := dumpNFA(n)
 		full := regexp.MustCompile(`^(?:` + p + `)$`)
 		ncfg := 1
-		if i%3 == 0 {
+		if i%3 == 0 || (i >= allCfgFrom && i < allCfgTo) {
 			ncfg = len(cfgs)
 		}
 		for ci := 0; ci < ncfg; ci++ {
